@@ -305,6 +305,22 @@ Theorem C12_wing_pass_takes_only_free_continuations : forall origs o jm l wing a
 Proof. exact pass_fresh. Qed.
 Print Assumptions C12_wing_pass_takes_only_free_continuations.
 
+(* every member of every wing is recorded as assigned (wing_ID <> -1) ... *)
+Theorem C12_wing_members_assigned : forall segs ws a,
+  build segs (originals segs) (originals segs) [] [] = Some (ws, a) -> List.Forall (List.Forall (fun s => In s a)) ws.
+Proof. exact wings_members_assigned. Qed.
+Print Assumptions C12_wing_members_assigned.
+
+(* ... hence what a pass takes for the wing being built has the (ID, side) of no member of the wings built before: the passes never list a
+   half-segment in two wings *)
+Theorem C12_wing_pass_disjoint_from_earlier_wings : forall origs o jm l wings wing assigned added,
+  List.Forall (List.Forall (fun s => In s assigned)) wings ->
+  let '(_, a, _) := pass origs o jm l wing assigned added in
+  exists new, a = new ++ assigned /\
+    forall s, In s new -> forall wg m, In wg wings -> In m wg -> keyeq s m = false.
+Proof. exact pass_takes_from_no_earlier_wing. Qed.
+Print Assumptions C12_wing_pass_disjoint_from_earlier_wings.
+
 (* non-vacuity: a two-sided wing with outer panels and a one-sided fin carrying a two-sided T-tail give three wings (Proofs/WingsP.v) *)
 Definition C12_wing_example := wings_example.
 Check C12_wing_example.
